@@ -522,7 +522,7 @@ func cmdCheck(args []string) {
 	// known findings that no longer fail are simply not printed.
 
 	// evidence
-	var assumptions []string
+	assumptions := []string{}
 	aset := map[string]bool{}
 	fnset := map[string]bool{}
 	for _, u := range units {
